@@ -490,6 +490,11 @@ class INETBase(NLRI):
 
         network, data = data[:size], data[size:]
 
+        if mask % 8:
+            # RFC 4271 4.3: "the value of trailing bits is irrelevant". Kept, `14 0a 01 1f` was reported as 10.1.31.0/20
+            # and stored beside 10.1.16.0/20 as another route: the withdraw of one left the other for ever
+            network = bytes(network[:-1]) + bytes([network[-1] & (0xFF00 >> (mask % 8)) & 0xFF])
+
         # Create NLRI from CIDR
         if afi == AFI.ipv4:
             cidr = CIDR.from_ipv4(bytes([mask]) + bytes(network))
